@@ -185,26 +185,26 @@ claim("C03",
 
 # Addenda: rules added or cross-registered after the independently seeded changes (DESIGN §8).
 _EXTRA = {
- "C01": " Added after the seeded changes: (R-TXN-9) every EncodeView in Commit is preceded by Truncate(0)+Seek(0) on the same file; (R-TXN-10) the auto-committing entry point is not reachable from ExecuteStatement; (R-ORD-1) the per-table counts that gate 'uncommitted' marking are filled by the same loop as their tables. (R-SIG-1) signals stay routed to the cancel function until the deferred rollback and release have run. (R-PUB-1) the write-back covers every updatable view type. Third round: R-ISO-5 registered (no failing exit between two publications of a multi-table statement).",
+ "C01": " Added after the seeded changes: (R-TXN-9) every EncodeView in Commit is preceded by Truncate(0)+Seek(0) on the same file; (R-TXN-10) the auto-committing entry point is not reachable from ExecuteStatement; (R-ORD-1) the per-table counts that gate 'uncommitted' marking are filled by the same loop as their tables. (R-SIG-1) signals stay routed to the cancel function until the deferred rollback and release have run. (R-PUB-1) the write-back covers every updatable view type. Third round: R-ISO-5 registered (no failing exit between two publications of a multi-table statement). Fourth round: (R-CNT-3) a record whose cells are stored is counted, so the table is registered as uncommitted.",
  "C02": " Added after the seeded changes: (R-FMT-7) a grow-and-replace of a loaded record list keeps every element; (R-TXN-9) the file is rewound before each encode. (R-FMT-8) a loader records the detected line break only when one was detected (sibling agreement). Third round: R-FMT-4 now follows the bytes of every trailing line-break write in the commit path to the LineBreak they come from (FileInfo: accepted; session flags, also through a local copy, or a constant: reported); R-PAR-1 registered (loader workers share no scratch row).",
  "C03": " Added after the seeded changes: (R-REL-6) every success return of OuterJoin lies behind the FULL test; (R-ISO-2) inline tables / CTEs are handed out as copies. Second round: (R-CMP-7) IN / ANY / ALL over the empty list and lists with UNKNOWN elements. Third round: (R-ALIAS-1) records are not carved out of one allocation with a two-index slice; (R-PAR-12) a per-item decision across per-worker result slots is folded before it is acted on (FULL OUTER JOIN unmatched rows); (R-SET-1) set operators.",
- "C04": " Also (R-PAR-1): the key-generation workers share no buffer. Added after the seeded changes: (R-KEY-6) the strict / loose key choice is made in one place under a test of StrictEqual; (R-SRT-4) a cached sort value is filed under the column it was computed from. Third round: (R-SET-1) UNION / EXCEPT / INTERSECT without ALL generate the receiver's comparison keys on every success path that keeps rows; (R-POOL-5) a key buffer returns to its pool once.",
- "C05": " Also (R-ISO-4): no store into a cell shared with other views (UPDATE builds new cells); (R-CNT-2) the per-table counts of multi-table UPDATE / DELETE count distinct records (set size, or a counter guarded by a first-seen test). (R-PUB-1) the write-back of every data-changing statement covers every updatable view type (file, temporary table, stdin) — finite evaluation of the FileInfo predicates over the ViewType constants. Third round: R-POOL-2 and R-PAR-1 registered (DELETE releases no shared cell values; ADD COLUMN's workers share no scratch slice); (R-LOCK-7) source queries run after the target is locked.",
- "C09": " Also (R-CACHE-1): the first update access to a table loaded by a plain SELECT re-reads it under the exclusive lock. Second round: (R-CACHE-4) after the upgrade reload the cached view remembers that it holds the update lock. Third round: (R-LOCK-7) in every data-changing entry function every table read is preceded by the target's update-load — genuine defect recorded as known finding (WITH queries are evaluated before the lock: lost update); (R-CLEAN-7) created control files are handed to the handler before any failing step.",
- "C10": " Added after the seeded changes: (R-SWAP-4) the original descriptor Handler.fp is never written or truncated; (R-TXN-9) rewind before encode. (R-SWAP-5) a taint analysis of the table path: an existing table is never opened for writing, truncated, written or renamed away — it is only the target of os.Rename; (R-SWAP-2, new clause) a ForUpdate commit succeeds only through that rename.",
- "C07": " Also (R-SRT-4): cached sort values are filed under the row and column they were computed from. Added after the second round of seeded changes: (R-SRT-5) a typestate analysis follows the view through the SELECT pipeline and proves that the per-row sort-value caches are nil or aligned with the rows wherever they are read (two genuine defects found: OFFSET did not shift the keys that LIMIT … WITH TIES reads — repaired; more than 100 PERCENT kept 100 rows — R-LIM-4, repaired); (R-LIM-4) no literal other than 0 reaches a row bound; (R-POOL-2) OFFSET / LIMIT release only their own temporaries. Third round: (R-FIX-1) Fix resets every transient pipeline field of View (incl. the OFFSET count) on every success path.",
- "C11": " Added after the seeded changes: (R-SIG-1) signal.Stop is deferred so that it runs after the deferred rollback / forced release; a second signal during clean-up cannot kill the process. Third round: (R-CLEAN-7) a created control file / descriptor is owned by the handler (or released, or returned) before any clean-up call or return.",
- "C14": " R-POOL-2 also covers deferred releases (double release through defer + explicit Discard). Third round: (R-ISO-7) a scratch view that is handed to in-place writers owns its records; (R-ANA-5) partitions are owned by one Execute.",
- "C06": " Second round: (R-CMP-7) InRowValueList equals the Kleene fold for both match types, lists of 0–3 elements and every assignment of element results (finite evaluation with the element comparison as an oracle). Third round: (R-CMP-8) the IS truth table over operand classes, expected values from the documentation; (R-CONV-1) no NULL shortcut before strconv for any spelling strconv accepts (Inf / NaN / exponents / hex floats).",
- "C08": " Second round: R-ISO-5 no longer exempts cancellation returns after a publication (per-statement contexts do not end the transaction) — genuine defect in DELETE repaired.",
- "C12": " Added after the seeded changes: (R-PAR-7) no aggregate / analytic implementation starts goroutines (sequential reductions, no float reassociation). Second round: (R-PAR-8) no unsynchronised stateful library object shared by the workers; (R-PAR-10) no piecewise unstable sort inside a concurrent region. Third round: (R-POOL-5) no object sits in a pool twice; (R-PAR-12) no per-worker-slot effects in a per-item decision; (R-ALIAS-1) no shared spare capacity.",
- "C13": " Added later: (R-PAR-4) scope constructors called in regions give each goroutine fresh lock-free helpers (field-index caches; genuine defect repaired); (R-PAR-6) the plain-map fields shared by all scopes are accessed only under viewLoadingMutex. Second round: (R-PAR-8) library objects in package-level variables (math/rand.Rand …) are used under a lock or outside concurrent code — two genuine races repaired; (R-PAR-9) objects handed down through a context value are read-only for the workers. Third round: (R-ALIAS-1) spare capacity of in-place-grown slices is never shared between a new object and its donor — genuine race repaired (per-group views shared the grouped view's header capacity); (R-PAR-11) a library object captured by concurrent goroutines is used by one of them at a time.",
- "C15": " Added after the seeded changes: (R-SCP-7) a '… is redeclared' error is guarded only by tests on the current block (genuine defect in DeclareView repaired). (R-PAR-1) concurrent invocations of a user-defined aggregate share no argument buffer. Second round: (R-SCP-8) every block body (IF/CASE arms, WHILE bodies, function bodies) runs on a freshly created child scope that is released on every exit; (R-CUR-7) lookup loops fall through only on 'not declared here'.",
+ "C04": " Also (R-PAR-1): the key-generation workers share no buffer. Added after the seeded changes: (R-KEY-6) the strict / loose key choice is made in one place under a test of StrictEqual; (R-SRT-4) a cached sort value is filed under the column it was computed from. Third round: (R-SET-1) UNION / EXCEPT / INTERSECT without ALL generate the receiver's comparison keys on every success path that keeps rows; (R-POOL-5) a key buffer returns to its pool once. Fourth round: R-SRT-5 registered (the per-cell cache read by PARTITION BY moves with the rows); (R-SRT-6) NewSortValue follows the conversion ladder.",
+ "C05": " Also (R-ISO-4): no store into a cell shared with other views (UPDATE builds new cells); (R-CNT-2) the per-table counts of multi-table UPDATE / DELETE count distinct records (set size, or a counter guarded by a first-seen test). (R-PUB-1) the write-back of every data-changing statement covers every updatable view type (file, temporary table, stdin) — finite evaluation of the FileInfo predicates over the ViewType constants. Third round: R-POOL-2 and R-PAR-1 registered (DELETE releases no shared cell values; ADD COLUMN's workers share no scratch slice); (R-LOCK-7) source queries run after the target is locked. Fourth round: (R-CNT-3) stored means counted.",
+ "C09": " Also (R-CACHE-1): the first update access to a table loaded by a plain SELECT re-reads it under the exclusive lock. Second round: (R-CACHE-4) after the upgrade reload the cached view remembers that it holds the update lock. Third round: (R-LOCK-7) in every data-changing entry function every table read is preceded by the target's update-load — genuine defect recorded as known finding (WITH queries are evaluated before the lock: lost update); (R-CLEAN-7) created control files are handed to the handler before any failing step. Fourth round: (R-LOCK-8) forUpdate is propagated from query.Select to every loader; R-TXN-10 / R-CACHE-2 registered (no implicit commit or eviction that releases an update lock mid-transaction).",
+ "C10": " Added after the seeded changes: (R-SWAP-4) the original descriptor Handler.fp is never written or truncated; (R-TXN-9) rewind before encode. (R-SWAP-5) a taint analysis of the table path: an existing table is never opened for writing, truncated, written or renamed away — it is only the target of os.Rename; (R-SWAP-2, new clause) a ForUpdate commit succeeds only through that rename. Fourth round: R-TXN-8 registered (what is encoded is what is swapped).",
+ "C07": " Also (R-SRT-4): cached sort values are filed under the row and column they were computed from. Added after the second round of seeded changes: (R-SRT-5) a typestate analysis follows the view through the SELECT pipeline and proves that the per-row sort-value caches are nil or aligned with the rows wherever they are read (two genuine defects found: OFFSET did not shift the keys that LIMIT … WITH TIES reads — repaired; more than 100 PERCENT kept 100 rows — R-LIM-4, repaired); (R-LIM-4) no literal other than 0 reaches a row bound; (R-POOL-2) OFFSET / LIMIT release only their own temporaries. Third round: (R-FIX-1) Fix resets every transient pipeline field of View (incl. the OFFSET count) on every success path. Fourth round: (R-SRT-6) NewSortValue follows the documented conversion ladder in every abstract world; (R-SRT-7) the ORDER BY direction × NULLS table equals the documentation.",
+ "C11": " Added after the seeded changes: (R-SIG-1) signal.Stop is deferred so that it runs after the deferred rollback / forced release; a second signal during clean-up cannot kill the process. Third round: (R-CLEAN-7) a created control file / descriptor is owned by the handler (or released, or returned) before any clean-up call or return. Fourth round: R-LOCK-6 registered; (R-ERR-16) Rollback's restore step tests nil-returning lookups.",
+ "C14": " R-POOL-2 also covers deferred releases (double release through defer + explicit Discard). Third round: (R-ISO-7) a scratch view that is handed to in-place writers owns its records; (R-ANA-5) partitions are owned by one Execute. Fourth round: R-ISO-2 registered (inline tables are handed out as copies).",
+ "C06": " Second round: (R-CMP-7) InRowValueList equals the Kleene fold for both match types, lists of 0–3 elements and every assignment of element results (finite evaluation with the element comparison as an oracle). Third round: (R-CMP-8) the IS truth table over operand classes, expected values from the documentation; (R-CONV-1) no NULL shortcut before strconv for any spelling strconv accepts (Inf / NaN / exponents / hex floats). Fourth round: R-POOL-1 / R-POOL-2 registered (a conversion never returns its operand, so comparing does not release a live value).",
+ "C08": " Second round: R-ISO-5 no longer exempts cancellation returns after a publication (per-statement contexts do not end the transaction) — genuine defect in DELETE repaired. Fourth round: R-CACHE-2 registered (no unlisted eviction of a cached view with uncommitted changes).",
+ "C12": " Added after the seeded changes: (R-PAR-7) no aggregate / analytic implementation starts goroutines (sequential reductions, no float reassociation). Second round: (R-PAR-8) no unsynchronised stateful library object shared by the workers; (R-PAR-10) no piecewise unstable sort inside a concurrent region. Third round: (R-POOL-5) no object sits in a pool twice; (R-PAR-12) no per-worker-slot effects in a per-item decision; (R-ALIAS-1) no shared spare capacity. Fourth round: (R-PAR-13) the number of workers only decides how the work is split.",
+ "C13": " Added later: (R-PAR-4) scope constructors called in regions give each goroutine fresh lock-free helpers (field-index caches; genuine defect repaired); (R-PAR-6) the plain-map fields shared by all scopes are accessed only under viewLoadingMutex. Second round: (R-PAR-8) library objects in package-level variables (math/rand.Rand …) are used under a lock or outside concurrent code — two genuine races repaired; (R-PAR-9) objects handed down through a context value are read-only for the workers. Third round: (R-ALIAS-1) spare capacity of in-place-grown slices is never shared between a new object and its donor — genuine race repaired (per-group views shared the grouped view's header capacity); (R-PAR-11) a library object captured by concurrent goroutines is used by one of them at a time. Fourth round: (R-MTX-1) every Lock is paired with an Unlock on every path; R-SCP-2 registered.",
+ "C15": " Added after the seeded changes: (R-SCP-7) a '… is redeclared' error is guarded only by tests on the current block (genuine defect in DeclareView repaired). (R-PAR-1) concurrent invocations of a user-defined aggregate share no argument buffer. Second round: (R-SCP-8) every block body (IF/CASE arms, WHILE bodies, function bodies) runs on a freshly created child scope that is released on every exit; (R-CUR-7) lookup loops fall through only on 'not declared here'. Fourth round: (R-SCP-9) the StatementFlow of every executed statement list is propagated.",
  "C16": " Added after the seeded changes: (R-CUR-6) every no-row exit of Fetch parks the pointer on −1 or the record count. Second round: (R-CUR-7) the block-lookup loops fall through to the enclosing block only on 'not declared here' — a closed cursor in the innermost block is an error, not the outer cursor's data. Third round: (R-CUR-8) the flag IsInRange reads is set on every exit of Fetch that moved the pointer; (R-ERR-14) a failed OPEN does not leave a view behind.",
  "C17": " Also (R-PAR-1): the partition workers of Analyze share no scratch buffer. (R-SRT-4) cached sort values are filed under their own column. (R-SRT-5) the per-cell sort-value cache shared by analytic functions, DISTINCT and ORDER BY is dropped whenever the rows are replaced. Second round: (R-ANA-4) LAG and LEAD are mirror images of one helper (a mirrored start position implies a mirrored step). Third round: (R-ANA-5) the partitions handed to Execute are not retained while implementations reverse them in place.",
- "C18": " Added after the seeded changes: (R-SCAN-1) every read of Scanner.src is bounds-guarded; (R-ESC-3) no printer of a syntax-tree node uses a child's raw Identifier.Literal. Second round: (R-ESC-4) a shortcut of the escape functions is unreachable for strings containing a key of the escape table; (R-ESC-5) printers never glue an operator token to a text that combines with it into another token (genuine defect repaired: '- -1' printed '--1'); (R-ERR-13) Split-result indices in the generated parser actions are guarded. Third round: (R-ESC-6) every quoted literal is un-escaped exactly once between scanString and the token.",
- "C19": " Added later: (R-ERR-8) no method call on a possibly-nil interface in a type-switch default (genuine defect repaired); (R-SCAN-1) scanner reads are bounds-guarded; (R-FMT-7) grow-and-replace keeps every element. Second round: (R-ERR-11) user-controlled integers reaching an index or slice bound are shown ≥ 0 and within len of the same base (taint + interval engine + a small relational prover, across call boundaries); (R-ERR-12) the nil-able FileInfo.Handler is dereferenced only under a non-nil test or documented implication; (R-ERR-13) indices into strings.Split/Fields results are < len; (R-ERR-14) a value returned together with an error is published only where the error is known nil; (R-ERR-15) worker closures store their result slot on every non-error path. Four more genuine Fatal-Error defects found and repaired (FORMAT precision, SUBSTR overflow, inline table over a cached read-only file, LIMIT PERCENT after a huge OFFSET). Third round: R-PAR-1 registered (a map shared by worker goroutines is a fatal error that recover cannot catch).",
- "C20": " Added after the seeded changes: (R-TXN-10) statements that run statements do not re-enter the auto-committing entry point. (R-POOL-2) built-in functions release only their own temporaries, never a cell of the cached table. Second round: (R-CACHE-4) the memory of the reload guard (FileInfo.ForUpdate of the published view) is written on every (re)load path, so the documented exception fires at most once — genuine defect repaired for STDIN. Third round: (R-ISO-7) scratch views own their records.",
+ "C18": " Added after the seeded changes: (R-SCAN-1) every read of Scanner.src is bounds-guarded; (R-ESC-3) no printer of a syntax-tree node uses a child's raw Identifier.Literal. Second round: (R-ESC-4) a shortcut of the escape functions is unreachable for strings containing a key of the escape table; (R-ESC-5) printers never glue an operator token to a text that combines with it into another token (genuine defect repaired: '- -1' printed '--1'); (R-ERR-13) Split-result indices in the generated parser actions are guarded. Third round: (R-ESC-6) every quoted literal is un-escaped exactly once between scanString and the token. Fourth round: (R-SCAN-2) the scanner's loops end at EOF.",
+ "C19": " Added later: (R-ERR-8) no method call on a possibly-nil interface in a type-switch default (genuine defect repaired); (R-SCAN-1) scanner reads are bounds-guarded; (R-FMT-7) grow-and-replace keeps every element. Second round: (R-ERR-11) user-controlled integers reaching an index or slice bound are shown ≥ 0 and within len of the same base (taint + interval engine + a small relational prover, across call boundaries); (R-ERR-12) the nil-able FileInfo.Handler is dereferenced only under a non-nil test or documented implication; (R-ERR-13) indices into strings.Split/Fields results are < len; (R-ERR-14) a value returned together with an error is published only where the error is known nil; (R-ERR-15) worker closures store their result slot on every non-error path. Four more genuine Fatal-Error defects found and repaired (FORMAT precision, SUBSTR overflow, inline table over a cached read-only file, LIMIT PERCENT after a huge OFFSET). Third round: R-PAR-1 registered (a map shared by worker goroutines is a fatal error that recover cannot catch). Fourth round: (R-MTX-1) lock pairing; (R-ERR-16) nil-returning lookups are tested; R-ERR-7 covers differences of sizes; (R-ERR-17) user-supplied position lists are not empty; (R-ERR-18) run-time statement lists run behind a depth guard — three more defects repaired, one recorded (self-sourcing script).",
+ "C20": " Added after the seeded changes: (R-TXN-10) statements that run statements do not re-enter the auto-committing entry point. (R-POOL-2) built-in functions release only their own temporaries, never a cell of the cached table. Second round: (R-CACHE-4) the memory of the reload guard (FileInfo.ForUpdate of the published view) is written on every (re)load path, so the documented exception fires at most once — genuine defect repaired for STDIN. Third round: (R-ISO-7) scratch views own their records. Fourth round: (R-LOCK-8) forUpdate reaches the loaders of every operand of a FOR UPDATE query.",
 }
 for _p, _t in _EXTRA.items():
     if _p in CLAIMS:
